@@ -1,5 +1,27 @@
+#![allow(dead_code, unused)]
+// --- harper-ls is a bin-only crate: its modules are compiled into the harness from /repo ---
+#[path = "/repo/harper-ls/src/backend.rs"]
+mod backend;
+#[path = "/repo/harper-ls/src/config.rs"]
+mod config;
+#[path = "/repo/harper-ls/src/diagnostics.rs"]
+mod diagnostics;
+#[path = "/repo/harper-ls/src/dictionary_io.rs"]
+mod dictionary_io;
+#[path = "/repo/harper-ls/src/document_state.rs"]
+mod document_state;
+#[path = "/repo/harper-ls/src/git_commit_parser.rs"]
+mod git_commit_parser;
+#[path = "/repo/harper-ls/src/pos_conv.rs"]
+mod pos_conv;
+// --- harness ---
 mod common;
 mod corpus;
+mod frontends;
+mod textgen;
+mod tokfmt;
+mod probe;
+mod c02;
 mod c13;
 
 use common::*;
@@ -10,6 +32,10 @@ fn main() {
     if args.len() < 2 {
         eprintln!("usage: hv <prop> [--tier quick|thorough] [--seed N] [--out DIR] [--replay FILE]");
         std::process::exit(2);
+    }
+    if args[1] == "probe" {
+        probe::run(&args[2..]);
+        return;
     }
     let prop = args[1].clone();
     let mut tier = Tier::Quick;
@@ -42,6 +68,7 @@ fn main() {
     let ctx = Ctx { prop: prop.clone(), tier, seed, out, replay };
     quiet_panics();
     match prop.as_str() {
+        "C02" => c02::run(&ctx),
         "C13" => c13::run(&ctx),
         _ => {
             eprintln!("unknown property {}", prop);
